@@ -31,14 +31,16 @@ type sctx struct {
 	flavors []string // names defined so far (their defining forms are in defs)
 	defs    map[string][]string
 	funs    []string
-	exports bool   // packages may export names (def mode)
-	plain   bool   // no quoted-data or computed defaults (the item's instances are load-formed)
+	exports bool // packages may export names (def mode)
+	plain   bool // no quoted-data or computed defaults (the item's instances are load-formed)
+	fl      map[string]*flInfo
+	last    string // the most derived flavor of the session's chain
 	placed  string // feature placed by a helper on the item being built
 	nflavor int
 }
 
 func newSctx(r *rand.Rand, feat string) *sctx {
-	return &sctx{r: r, feat: feat, defs: map[string][]string{}}
+	return &sctx{r: r, feat: feat, defs: map[string][]string{}, fl: map[string]*flInfo{}}
 }
 
 var nameWords = []string{"alpha", "beta", "gamma", "delta", "omega", "x", "tmp", "counter", "a-quite-long-descriptive-name", "zz"}
@@ -90,15 +92,9 @@ func (s *sctx) varItem() Item {
 	kind, val := cleanVarValue(r)
 	it := Item{Kind: "var", Name: name}
 	switch {
-	case s.want("var-symbol-value"):
+	case r.IntN(12) == 0:
+		// a symbol as a value (snapshot has to quote it)
 		val, kind = "'"+fw.Pick(r, symNames), "symbol"
-		it.Feat = "var-symbol-value"
-	case s.want("var-hash-unquoted"):
-		val, kind = "(let ((h (make-hash-table))) (setf (gethash 1 h) '(a 2)) h)", "hash-table"
-		it.Feat = "var-hash-unquoted"
-	case s.want("var-hash-key-dropped"):
-		val, kind = "(let ((h (make-hash-table))) (setf (gethash #\\a h) 1) h)", "hash-table"
-		it.Feat = "var-hash-key-dropped"
 	case s.want("var-fill-pointer"):
 		val, kind = genValue(r, "vector", "fill-pointer"), "vector"
 		it.Feat = "var-fill-pointer"
@@ -117,9 +113,6 @@ func (s *sctx) varItem() Item {
 		it.Feat = "var-long-float"
 	case r.IntN(20) == 0:
 		val, kind = "#()", "vector"
-	case s.want("var-hash-multi"):
-		val, kind = "(let ((h (make-hash-table))) (setf (gethash 1 h) 10) (setf (gethash 2 h) 20) (setf (gethash 3 h) 30) (setf (gethash :k h) \"v\") (setf (gethash \"s\" h) 5) h)", "hash-table"
-		it.Feat = "var-hash-multi"
 	case s.want("var-lambda"):
 		fd, _ := genFunction(r, "", 2, codeOpts{})
 		val, kind = fd.Src, "lambda"
@@ -157,13 +150,11 @@ func (s *sctx) constItem() Item {
 		func() string { return fw.Pick(r, kwNames) },
 	})()
 	it := Item{Kind: "const", Name: name}
-	switch {
-	case s.want("const-list-value"):
-		val = "'(1 2 3)"
-		it.Feat = "const-list-value"
-	case s.want("const-symbol-value"):
+	switch r.IntN(10) {
+	case 0:
+		val = fw.Pick(r, []string{"'(1 2 3)", "'(a \"b\" :c)", "'((1 . 2) (3 4))"})
+	case 1:
 		val = "'" + fw.Pick(r, symNames)
-		it.Feat = "const-symbol-value"
 	}
 	if doc := s.doc(); doc != "" {
 		if s.placed != "" {
@@ -258,44 +249,90 @@ type fvar struct {
 	def  string // default source, "" = none
 }
 
-func (s *sctx) flavorItem(withInstance bool) Item {
+// flInfo is what later flavors of a session need to know about an earlier one.
+type flInfo struct {
+	vars    []fvar              // effective instance variables, inherited ones first
+	hist    map[string][]string // every default a variable had along the chain
+	capable bool                // every variable gettable, settable and inittable, nothing abstract: may be a parent in the clean stream
+	depth   int
+}
+
+// flavorItem defines a flavor. role "" = free choice, "capable" = fit to be
+// a parent in the clean stream, "hidden-parent" = a parent with a variable
+// that has no accessor (the avoid-set construct flavor-parent needs it).
+//
+// Inheritance in the clean stream: ancestors have every variable gettable,
+// settable and inittable (a child's load form says :gettable-instance-variables
+// for "all of mine", which on reload also covers inherited variables); a session
+// holds at most one chain, so that the order of the flavors in a snapshot is
+// determined. Children re-declare inherited variables with the default of
+// any ancestor or a new one.
+func (s *sctx) flavorItem(withInstance bool, role string) Item {
 	r := s.r
 	name := s.name("fl-")
 	it := Item{Kind: "flavor", Name: name}
-	nv := 1 + r.IntN(4)
-	if s.feat == "flavor-inittable-subset" && !s.used {
-		nv = 3 + r.IntN(2)
+	info := &flInfo{hist: map[string][]string{}}
+	var parent *flInfo
+	var parents []string
+	dirtyParent := false
+	if p := s.fl[s.last]; p != nil && role != "hidden-parent" {
+		switch {
+		case !p.capable && s.want("flavor-parent"):
+			it.Feat = "flavor-parent"
+			dirtyParent = true
+			parent = p
+		case p.capable && p.depth < 3:
+			parent = p
+		}
+		if parent != nil {
+			parents = []string{s.last}
+			it.Pre = append(it.Pre, s.defs[s.last]...)
+			info.depth = parent.depth
+			for k, v := range parent.hist {
+				info.hist[k] = append([]string{}, v...)
+			}
+		}
 	}
-	var vars []fvar
-	for i := 0; i < nv; i++ {
-		v := fvar{name: fmt.Sprintf("%s%d", fw.Pick(r, []string{"size", "w", "label", "count", "val"}), s.n*10+i)}
+	info.depth++
+	genDef := func() string {
 		switch r.IntN(5) {
 		case 0:
+			return ""
 		case 1:
-			v.def = litString(fw.Pick(r, words))
+			return litString(fw.Pick(r, words))
 		case 2:
-			v.def = fw.Pick(r, kwNames)
-		default:
-			v.def = fmt.Sprint(r.IntN(100))
+			return fw.Pick(r, kwNames)
 		}
-		vars = append(vars, v)
+		return fmt.Sprint(r.IntN(100))
+	}
+	var vars []fvar // declared by this flavor
+	if parent != nil {
+		for _, pv := range parent.vars {
+			if r.IntN(3) != 0 {
+				continue
+			}
+			// re-declare with the default of some ancestor or a new one
+			v := fvar{name: pv.name, def: genDef()}
+			if h := info.hist[pv.name]; 0 < len(h) && r.IntN(3) != 0 {
+				v.def = fw.Pick(r, h)
+			}
+			vars = append(vars, v)
+		}
+	}
+	nv := 1 + r.IntN(4)
+	for i := 0; i < nv; i++ {
+		vars = append(vars, fvar{name: fmt.Sprintf("%s%d", fw.Pick(r, []string{"size", "w", "label", "count", "val"}), s.n*10+i), def: genDef()})
+	}
+	if role == "hidden-parent" {
+		vars = []fvar{{name: fmt.Sprintf("hid%d", s.n), def: "7"}, {name: fmt.Sprintf("shown%d", s.n), def: "8"}}
 	}
 	switch {
 	case s.want("flavor-default-unquoted"):
 		it.Feat = "flavor-default-unquoted"
-		vars[0].def = fw.Pick(r, []string{"'(1 2)", "'sym", "'(a b)"})
-	case r.IntN(8) == 0 && !s.plain:
-		vars[0].def = "(+ 1 2)"
+		vars[len(vars)-1].def = fw.Pick(r, []string{"'(1 2)", "'sym", "'(a b)"})
+	case r.IntN(8) == 0 && !s.plain && role == "":
+		vars[len(vars)-1].def = "(+ 1 2)"
 	}
-	var parents []string
-	var inheritedVars []fvar
-	if 0 < len(s.flavors) && s.want("flavor-parent") {
-		it.Feat = "flavor-parent"
-		p := fw.Pick(r, s.flavors)
-		parents = append(parents, p)
-		it.Pre = append(it.Pre, s.defs[p]...)
-	}
-	_ = inheritedVars
 	var vs []string
 	for _, v := range vars {
 		if v.def == "" {
@@ -304,55 +341,90 @@ func (s *sctx) flavorItem(withInstance bool) Item {
 			vs = append(vs, fmt.Sprintf("(%s %s)", v.name, v.def))
 		}
 	}
-	// options
-	subset := func() []fvar {
-		var out []fvar
-		for _, v := range vars {
-			if r.IntN(2) == 0 {
-				out = append(out, v)
+	// effective variables
+	if parent != nil {
+		for _, pv := range parent.vars {
+			ev := pv
+			for _, v := range vars {
+				if v.name == pv.name {
+					ev = v
+				}
+			}
+			info.vars = append(info.vars, ev)
+		}
+	}
+	for _, v := range vars {
+		found := false
+		for _, ev := range info.vars {
+			if ev.name == v.name {
+				found = true
 			}
 		}
-		return out
+		if !found {
+			info.vars = append(info.vars, v)
+		}
+		if v.def != "" && v.def[0] != '(' && v.def[0] != '\'' {
+			info.hist[v.name] = append(info.hist[v.name], v.def)
+		}
 	}
+	// options
 	var opts []string
+	names := func(set []fvar) string {
+		ns := make([]string, len(set))
+		for i, v := range set {
+			ns[i] = v.name
+		}
+		return strings.Join(ns, " ")
+	}
 	mode := func(opt string) []fvar {
 		switch r.IntN(4) {
 		case 0:
 			return nil
 		case 1:
-			sub := subset()
+			var sub []fvar
+			for _, v := range vars {
+				if r.IntN(2) == 0 {
+					sub = append(sub, v)
+				}
+			}
 			if len(sub) == 0 {
 				return nil
 			}
-			ns := make([]string, len(sub))
-			for i, v := range sub {
-				ns[i] = v.name
-			}
-			opts = append(opts, fmt.Sprintf("(%s %s)", opt, strings.Join(ns, " ")))
+			opts = append(opts, fmt.Sprintf("(%s %s)", opt, names(sub)))
 			return sub
 		}
 		opts = append(opts, opt)
 		return vars
 	}
-	gettable := mode(":gettable-instance-variables")
-	settable := mode(":settable-instance-variables")
-	var inittable []fvar
+	var settable []fvar
 	switch {
-	case 3 <= len(vars) && s.want("flavor-inittable-subset"):
-		// a proper subset of two or more is listed in map iteration order
-		it.Feat = "flavor-inittable-subset"
-		inittable = vars[:len(vars)-1]
-		ns := make([]string, len(inittable))
-		for i, v := range inittable {
-			ns[i] = v.name
+	case role == "hidden-parent":
+		opts = append(opts, fmt.Sprintf("(:gettable-instance-variables %s)", vars[1].name))
+	case dirtyParent:
+		// all of its own variables, by name: the load form abbreviates this
+		// to the bare option, which on reload covers the inherited ones too
+		opts = append(opts, fmt.Sprintf("(:gettable-instance-variables %s)", names(vars)))
+	case role == "capable" || (role == "" && r.IntN(2) == 0):
+		info.capable = true
+		opts = append(opts, ":gettable-instance-variables", ":settable-instance-variables", ":inittable-instance-variables")
+		settable = vars
+	default:
+		mode(":gettable-instance-variables")
+		settable = mode(":settable-instance-variables")
+	}
+	inittable := vars
+	switch {
+	case info.capable:
+	case parent != nil:
+		// (inittable is not inherited, and a child's load form abbreviates
+		// "all of my own" to the bare option, which on reload means all
+		// effective variables: a child names none or all)
+		if inittable = nil; r.IntN(2) == 0 {
+			inittable = info.vars
+			opts = append(opts, ":inittable-instance-variables")
 		}
-		opts = append(opts, fmt.Sprintf("(:inittable-instance-variables %s)", strings.Join(ns, " ")))
-	case r.IntN(3) == 0 && 1 < len(vars):
-		inittable = []fvar{vars[r.IntN(len(vars))]}
-		opts = append(opts, fmt.Sprintf("(:inittable-instance-variables %s)", inittable[0].name))
-	case r.IntN(2) == 0:
-		inittable = vars
-		opts = append(opts, ":inittable-instance-variables")
+	default:
+		inittable = mode(":inittable-instance-variables")
 	}
 	doc := docOpt(r)
 	s.nflavor++
@@ -363,7 +435,7 @@ func (s *sctx) flavorItem(withInstance bool) Item {
 		opts = append(opts, fmt.Sprintf("(:default-init-plist (:%s %d))", inittable[0].name, r.IntN(50)))
 	}
 	switch {
-	case withInstance || s.plain:
+	case withInstance || s.plain || info.capable || role != "" || dirtyParent:
 	case r.IntN(12) == 0:
 		opts = append(opts, ":abstract-flavor")
 	case r.IntN(12) == 0:
@@ -377,18 +449,15 @@ func (s *sctx) flavorItem(withInstance bool) Item {
 	it.Forms = []string{def}
 	it.Obj = fmt.Sprintf("(find-flavor '%s)", name)
 	// probes
-	var mk string
-	{
-		args := ""
-		for _, v := range inittable {
-			if r.IntN(2) == 0 {
-				args += fmt.Sprintf(" :%s %d", v.name, 100+r.IntN(100))
-			}
+	args := ""
+	for _, v := range inittable {
+		if r.IntN(2) == 0 {
+			args += fmt.Sprintf(" :%s %d", v.name, 100+r.IntN(100))
 		}
-		mk = fmt.Sprintf("(make-instance '%s%s)", name, args)
 	}
+	mk := fmt.Sprintf("(make-instance '%s%s)", name, args)
 	var gets []string
-	for _, v := range vars {
+	for _, v := range info.vars {
 		gets = append(gets, fmt.Sprintf("(slot-value i '%s)", v.name))
 	}
 	it.Probes = append(it.Probes, fmt.Sprintf("(let ((i %s)) (list %s))", mk, strings.Join(gets, " ")))
@@ -401,7 +470,7 @@ func (s *sctx) flavorItem(withInstance bool) Item {
 		}
 		return false
 	}
-	for _, v := range vars {
+	for _, v := range info.vars {
 		// a getter or setter that was not asked for must stay absent: the
 		// error outcome is compared too
 		it.Probes = append(it.Probes, fmt.Sprintf("(send %s :%s)", mk, v.name))
@@ -412,12 +481,13 @@ func (s *sctx) flavorItem(withInstance bool) Item {
 			it.Probes = append(it.Probes, fmt.Sprintf("(slot-value (make-instance '%s :%s 5) '%s)", name, v.name, v.name))
 		}
 	}
-	_ = gettable
 	if doc != "" {
 		it.Probes = append(it.Probes, fmt.Sprintf("(documentation '%s 'type)", name))
 	}
-	if 0 < len(parents) {
+	if parent != nil {
 		it.Probes = append(it.Probes, fmt.Sprintf("(let ((i (make-instance '%s))) (send i :which-operations))", name))
+		x := "inherits:" + fmt.Sprint(info.depth)
+		it.Info = x
 	}
 	if s.want("flavor-method") {
 		it.Feat = "flavor-method"
@@ -437,6 +507,8 @@ func (s *sctx) flavorItem(withInstance bool) Item {
 	}
 	s.flavors = append(s.flavors, name)
 	s.defs[name] = append(append([]string{}, it.Pre...), def)
+	s.fl[name] = info
+	s.last = name
 	return it
 }
 
@@ -444,7 +516,10 @@ func (s *sctx) flavorItem(withInstance bool) Item {
 func (s *sctx) flavorInstanceItem() Item {
 	r := s.r
 	s.plain = true
-	base := s.flavorItem(false)
+	for k, n := 0, r.IntN(3); k < n; k++ {
+		_ = s.flavorItem(false, "capable")
+	}
+	base := s.flavorItem(false, "")
 	fl := base.Name
 	it := Item{Kind: "flavor-instance", Name: fl, Bind: true, Pre: append(append([]string{}, base.Pre...), base.Forms[0])}
 	it.Feat = base.Feat
@@ -461,12 +536,13 @@ func (s *sctx) flavorInstanceItem() Item {
 			continue
 		}
 		val := genAtom(r)
-		if k == 0 && s.want("instance-slot-unquoted") {
-			it.Feat = "instance-slot-unquoted"
-			val = fw.Pick(r, []string{"'(1 2)", "'sym", "'(a \"b\")"})
-		} else if r.IntN(6) == 0 {
+		switch r.IntN(8) {
+		case 0:
 			val = vecLit(r, 1)
+		case 1:
+			val = fw.Pick(r, []string{"'(1 2)", "'sym", "'(a \"b\")", "'(k9 (nested list) . 3)"})
 		}
+		_ = k
 		fmt.Fprintf(&b, " (setf (slot-value i '%s) %s)", sn, val)
 	}
 	b.WriteString(" i)")
@@ -647,12 +723,13 @@ func (s *sctx) classInstanceItem() Item {
 			continue
 		}
 		val := genAtom(r)
-		if k == 0 && s.want("instance-slot-unquoted") {
-			it.Feat = "instance-slot-unquoted"
-			val = fw.Pick(r, []string{"'(1 2)", "'sym", "'(a \"b\")"})
-		} else if r.IntN(6) == 0 {
+		switch r.IntN(8) {
+		case 0:
 			val = vecLit(r, 1)
+		case 1:
+			val = fw.Pick(r, []string{"'(1 2)", "'sym", "'(a \"b\")", "'(k9 (nested list) . 3)"})
 		}
+		_ = k
 		fmt.Fprintf(&b, " (setf (slot-value i '%s) %s)", sn, val)
 	}
 	b.WriteString(" i)")
@@ -703,10 +780,8 @@ func (s *sctx) genericItem() Item {
 	if r.IntN(4) != 0 {
 		it.Forms = append(it.Forms, def)
 	}
-	unspec := s.want("generic-unspecialized")
-	if unspec {
-		it.Feat = "generic-unspecialized"
-	}
+	// one method may leave its last required parameter unspecialized
+	unspec := r.IntN(4) == 0
 	nm := 1 + r.IntN(4)
 	seen := map[string]bool{}
 	var primaries [][]int
@@ -853,11 +928,8 @@ func (s *sctx) packageItem(content string) Item {
 var defKinds = []string{"package", "flavor", "flavor", "flavor-instance", "class", "class", "class-instance", "generic", "generic"}
 
 var defFeats = map[string][]string{
-	"flavor":          {"flavor-default-unquoted", "flavor-parent", "flavor-inittable-subset"},
-	"flavor-instance": {"instance-slot-unquoted"},
-	"class":           {"class-accessor"},
-	"class-instance":  {"instance-slot-unquoted"},
-	"generic":         {"generic-unspecialized"},
+	"flavor": {"flavor-default-unquoted", "flavor-parent"},
+	"class":  {"class-accessor"},
 }
 
 func genDefCase(r *rand.Rand) Case {
@@ -877,13 +949,17 @@ func buildDefCase(r *rand.Rand, kind, feat string) Case {
 		s.exports = true
 		it = s.packageItem("")
 	case "flavor":
+		s.feat = ""
 		if feat == "flavor-parent" {
-			// the parent itself is a clean flavor
-			s.feat = ""
-			_ = s.flavorItem(false)
-			s.feat = feat
+			_ = s.flavorItem(false, "hidden-parent")
+		} else {
+			// up to two ancestors
+			for k, n := 0, r.IntN(3); k < n; k++ {
+				_ = s.flavorItem(false, "capable")
+			}
 		}
-		it = s.flavorItem(false)
+		s.feat = feat
+		it = s.flavorItem(false, "")
 	case "flavor-instance":
 		it = s.flavorInstanceItem()
 	case "class":
@@ -906,10 +982,8 @@ func buildDefCase(r *rand.Rand, kind, feat string) Case {
 }
 
 var sessionFeats = []string{
-	"class", "flavor-method", "flavor-parent", "multi-flavor", "generic-unspecialized", "undefined-ref", "send-error-before-snapshot",
-	"var-symbol-value", "var-hash-unquoted", "var-hash-key-dropped", "var-fill-pointer",
-	"var-array-attrs", "var-long-float", "var-hash-multi", "flavor-inittable-subset",
-	"const-list-value", "const-symbol-value", "flavor-default-unquoted",
+	"class", "flavor-method", "flavor-parent", "multi-flavor", "undefined-ref", "send-error-before-snapshot",
+	"var-fill-pointer", "var-array-attrs", "var-long-float", "flavor-default-unquoted",
 	"package-var", "package-fun", "package-export", "fun-backquote", "macro-backquote", "fun-doc-wraps", "doc-wraps",
 }
 
@@ -924,10 +998,6 @@ func genSessionCase(r *rand.Rand) Case {
 func buildSessionCase(r *rand.Rand, feat string, n int) Case {
 	s := newSctx(r, feat)
 	c := Case{Mode: "session", Kind: "session", Feat: feat, Margins: []int{pickMargin(r)}}
-	maxFlavors := 1
-	if feat == "multi-flavor" || feat == "flavor-parent" {
-		maxFlavors = 4
-	}
 	for len(c.Items) < n {
 		var it Item
 		switch k := r.IntN(18); {
@@ -943,11 +1013,14 @@ func buildSessionCase(r *rand.Rand, feat string, n int) Case {
 			it = s.macroItem()
 		case k < 15:
 			// the order in which a snapshot lists unrelated flavors is not
-			// stable: more than one flavor per session is in the avoid set
-			if maxFlavors <= s.nflavor {
+			// stable: a session holds one inheritance chain at most
+			if feat == "multi-flavor" || feat == "flavor-parent" {
 				continue
 			}
-			it = s.flavorItem(r.IntN(3) == 0)
+			if p := s.fl[s.last]; p != nil && (!p.capable || 3 <= p.depth) {
+				continue
+			}
+			it = s.flavorItem(r.IntN(3) == 0, "")
 		case k < 16:
 			it = s.genericItem()
 		default:
@@ -957,7 +1030,8 @@ func buildSessionCase(r *rand.Rand, feat string, n int) Case {
 	}
 	if feat == "multi-flavor" {
 		for s.nflavor < 4 {
-			it := s.flavorItem(false)
+			s.last = "" // unrelated flavors
+			it := s.flavorItem(false, "")
 			it.Feat = feat
 			c.Items = append(c.Items, it)
 		}
@@ -973,7 +1047,8 @@ func buildSessionCase(r *rand.Rand, feat string, n int) Case {
 			it.Feat = "class"
 		case feat == "send-error-before-snapshot":
 			s.used = true
-			it = s.flavorItem(true)
+			s.last = ""
+			it = s.flavorItem(true, "")
 			it.Feat = feat
 			// the instance variable is the last form: send it a message it does not handle
 			iv := it.Forms[len(it.Forms)-1]
@@ -984,14 +1059,18 @@ func buildSessionCase(r *rand.Rand, feat string, n int) Case {
 			it = s.packageItem(feat)
 			it.Feat = feat
 		case feat == "flavor-parent":
-			if s.nflavor == 0 {
-				s.feat = ""
-				c.Items = append(c.Items, s.flavorItem(false))
-				s.feat = feat
-			}
-			it = s.flavorItem(false)
+			s.feat = ""
+			c.Items = append(c.Items, s.flavorItem(false, "hidden-parent"))
+			s.feat = feat
+			it = s.flavorItem(false, "")
 		case strings.HasPrefix(feat, "flavor-"):
-			it = s.flavorItem(false)
+			if p := s.fl[s.last]; p != nil && !p.capable {
+				// the chain cannot be extended: the construct cannot be placed
+				s.used = true
+				c.Feat = ""
+				continue
+			}
+			it = s.flavorItem(false, "")
 		case strings.HasPrefix(feat, "generic-"):
 			it = s.genericItem()
 		case strings.HasPrefix(feat, "var-"):
